@@ -218,45 +218,53 @@ class Merge(Expr):
                 return divisions
 
         if self._is_single_partition_broadcast:
-            use_left = self.right_index or _contains_index_name(
-                self.right._meta, self.right_on
-            )
-            use_right = self.left_index or _contains_index_name(
-                self.left._meta, self.left_on
-            )
-            if (
-                use_right
-                and self.left.npartitions == 1
-                and self.how in ("right", "inner")
-            ):
+            if self.left.npartitions == 1 and self._keeps_index("right"):
                 return self.right.divisions
-            elif (
-                use_left
-                and self.right.npartitions == 1
-                and self.how in ("inner", "left", "leftsemi")
-            ):
+            elif self.right.npartitions == 1 and self._keeps_index("left"):
                 return self.left.divisions
             else:
                 _npartitions = max(self.left.npartitions, self.right.npartitions)
 
         elif self.is_broadcast_join:
-            meta_index_names = set(self._meta.index.names)
-            if (
-                self.broadcast_side == "left"
-                and set(self.right._meta.index.names) == meta_index_names
-            ):
-                return self._bcast_right.divisions
-            elif (
-                self.broadcast_side == "right"
-                and set(self.left._meta.index.names) == meta_index_names
-            ):
-                return self._bcast_left.divisions
-            _npartitions = max(self.left.npartitions, self.right.npartitions)
+            if self.broadcast_side == "left":
+                side, frame = "right", self._bcast_right
+            else:
+                side, frame = "left", self._bcast_left
+            if self._keeps_index(side):
+                return frame.divisions
+            _npartitions = frame.npartitions
 
         else:
             _npartitions = self._npartitions
 
         return (None,) * (_npartitions + 1)
+
+    def _keeps_index(self, side):
+        """Whether every output row carries the index of its row in ``side``
+
+        The divisions of an input only describe the output if this is the case.
+        pandas passes the index of an input on when the *other* input is joined
+        on its index, or when both are joined on an index level of the same name;
+        every other merge returns a new RangeIndex.
+        """
+        if side == "left":
+            hows, other_index = ("inner", "left", "leftsemi"), self.right_index
+        else:
+            hows, other_index = ("inner", "right"), self.left_index
+        if self.how not in hows:
+            return False
+        left_on, right_on = self.left_on, self.right_on
+        if isinstance(left_on, list) and len(left_on) == 1:
+            left_on = left_on[0]
+        if isinstance(right_on, list) and len(right_on) == 1:
+            right_on = right_on[0]
+        return bool(other_index) or (
+            not isinstance(left_on, list)
+            and not isinstance(right_on, list)
+            and _contains_index_name(self.left._meta, left_on)
+            and _contains_index_name(self.right._meta, right_on)
+            and left_on == right_on
+        )
 
     @functools.cached_property
     def broadcast_side(self):
@@ -712,9 +720,11 @@ class BroadcastJoin(Merge, PartitionsFiltered):
         return super().broadcast_side
 
     def _divisions(self):
-        if self.broadcast_side == "left":
-            return self.right.divisions
-        return self.left.divisions
+        side = "right" if self.broadcast_side == "left" else "left"
+        frame = getattr(self, side)
+        if self._keeps_index(side):
+            return frame.divisions
+        return (None,) * (frame.npartitions + 1)
 
     def _simplify_up(self, parent, dependents):
         return
